@@ -43,6 +43,8 @@ int rt_self(void);
 long rt_canon(uint64_t v);
 /* print the trace of the last run as one line of integers */
 void rt_print_trace(void);
+void rt_print_trace_crash(int sig);
 extern long rt_stat_steps, rt_stat_cas_fail;
+extern volatile int rt_stop_now;
 
 #endif
